@@ -951,3 +951,83 @@ Proof.
     do 3 eexists; (split; [reflexivity|]); (split; [split; reflexivity|]);
     (split; [exact Hall|]); (split; [discriminate|]); (split; [discriminate|exact He]).
 Qed.
+
+(* ---- is sts requested: the general form (any SupportedCaps) ------------------ *)
+Lemma amem_aset {V} (k k' : str) (v : V) (m : amap V) : amem k (aset k' v m) = streqb k' k || amem k m.
+Proof.
+  unfold amem. destruct (streqb k' k) eqn:E.
+  - apply streqb_eq in E. subst k'. rewrite aget_aset_eq. reflexivity.
+  - apply streqb_neq in E. rewrite aget_aset_neq by exact E. reflexivity.
+Qed.
+
+Lemma amem_fold_aset_kvs {V} (k : str) (l : amap V) : forall m : amap V,
+  amem k (fold_left (fun o kv => aset (fst kv) (snd kv) o) l m) = amem k l || amem k m.
+Proof.
+  induction l as [|[k' v] r IH]; intros m; [reflexivity|]. cbn [fold_left fst snd]. rewrite IH, amem_aset.
+  unfold amem at 3. cbn [aget]. destruct (streqb k' k); cbn [orb].
+  - apply orb_true_r.
+  - reflexivity.
+Qed.
+
+(* possibleCapList offers sts iff the application listed it in SupportedCaps, or STS is
+   neither disabled nor pre-empted by configured SSL nor inside the fallback window *)
+Lemma possible_caps_sts_general cfg recent :
+  amem s_sts (possible_caps cfg recent) =
+  amem s_sts (c_supported cfg) ||
+  (negb (c_disable_sts cfg) && negb (c_ssl cfg) && negb (recent && negb (c_disable_fallback cfg))).
+Proof.
+  unfold possible_caps. unfold amem at 1. rewrite aget_fold_aset_keys, sts_not_builtin.
+  change (match aget s_sts ?m with Some _ => true | None => false end) with (amem s_sts m).
+  rewrite amem_fold_aset_kvs. f_equal.
+  assert (Hsasl : forall m : amap (list str), amem s_sts (aset s_sasl [] m) = amem s_sts m).
+  { intros m. rewrite amem_aset. reflexivity. }
+  destruct (c_disable_sts cfg), (c_ssl cfg), recent, (c_disable_fallback cfg), (c_sasl cfg);
+    cbn [negb andb]; rewrite ?amem_aset, ?Hsasl; reflexivity.
+Qed.
+
+(* ---- renewal: every acknowledged duration on TLS restarts the clock ---------- *)
+Lemma with_preload_received v s : persistence_received (with_preload v s) = persistence_received s.
+Proof. unfold with_preload. destruct (cv_get s_preload v); reflexivity. Qed.
+Lemma with_preload_duration v s : persistence_duration (with_preload v s) = persistence_duration s.
+Proof. unfold with_preload. destruct (cv_get s_preload v); reflexivity. Qed.
+
+Lemma tls_renewal ord cfg now st a toks v d :
+  c_disable_sts cfg = false ->
+  aget s_sts (ack_enabled st toks) = Some v ->
+  cv_get s_duration v = Some d ->
+  let s' := st_sts (fst (handle_cap ord cfg true now st (ack_params a toks))) in
+  persistence_received s' = now /\ persistence_duration s' = atoi_go d /\
+  upgrade_port s' = upgrade_port (st_sts st).
+Proof.
+  intros Hd Hv Hdur. cbv zeta. rewrite (ack_tls_event ord cfg now st a toks v d Hd Hv Hdur).
+  destruct (finish_ack_quiet cfg (ack_enabled st toks) (with_preload v (set_persistence (atoi_go d) now (st_sts st)))) as [_ Hs].
+  rewrite Hs, with_preload_received, with_preload_duration, with_preload_port. repeat split.
+Qed.
+
+(* a policy received at most `duration` whole seconds ago has not expired *)
+Lemma unexpired_within s now :
+  (persistence_received s <= now)%Z ->
+  (now - persistence_received s < (persistence_duration s + 1) * second_ns)%Z ->
+  sts_expired now s = false.
+Proof.
+  intros Hle Hlt. unfold sts_expired, since, max_duration, max_int64, min_int64, second_ns in *.
+  set (d := (now - persistence_received s)%Z) in *.
+  assert (Hd0 : (0 <= d)%Z) by lia.
+  destruct (9223372036854775807 <? d)%Z eqn:E1.
+  - apply Z.ltb_lt in E1. apply Z.ltb_ge.
+    change (Z.quot 9223372036854775807 1000000000) with 9223372036%Z. lia.
+  - destruct (d <? -9223372036854775808)%Z eqn:E2; [lia|].
+    apply Z.ltb_ge. rewrite Z.quot_div_nonneg by lia.
+    assert (d / 1000000000 < persistence_duration s + 1)%Z; [|lia].
+    apply Z.div_lt_upper_bound; lia.
+Qed.
+
+Lemma no_downgrade_unexpired ord cfg port s c rest :
+  sts_enabled s = true -> cs_dial_ok c = false ->
+  (persistence_received s <= cs_dial_now c)%Z ->
+  (cs_dial_now c - persistence_received s < (persistence_duration s + 1) * second_ns)%Z ->
+  start_conn ord cfg port s (c :: rest) = ([mkLog (upgrade_port s) true false []], RSTSUpgradeFailed, s).
+Proof.
+  intros He Hd Hle Hlt. rewrite (no_downgrade_dial ord cfg port s c rest He Hd).
+  rewrite (unexpired_within s (cs_dial_now c) Hle Hlt). reflexivity.
+Qed.
